@@ -26,7 +26,7 @@ LEVEL = "fault_enumeration"
 CASE_CAP = 60.0
 HASHSEED_INDEPENDENT = True
 ASSUMPTIONS = [
-    "module namespaces are compared as {name: id(value)}; dict order is not compared; the CPython bookkeeping name __warningregistry__ is ignored",
+    "module namespaces are compared as {name: id(value)}; dict order is not compared; no name is ignored (not even CPython's __warningregistry__, which appears when a warning is attributed to the module)",
     "faults are exceptions raised by steps of the traced body or by the tracer's own error exits; asynchronous interrupts between two bytecodes of the tracer are not injected (the property speaks of steps that raise)",
     "builtins.int/float/len are included in the snapshot: replacing them would change what the names resolve to in the user's module",
     "/repo sources run on newer dependency versions through the 3-point compat shim (verif/compat)",
@@ -304,7 +304,7 @@ class SimBase(BaseException):
 
 
 # ------------------------------------------------------------------------------ oracle
-IGNORED = {"__warningregistry__"}
+IGNORED = set()
 
 
 def snapshot(mods: list, helper=None) -> dict:
